@@ -445,11 +445,16 @@ func main() {
 		out.Case(op, "accept", cls, true)
 	}
 	// vectored-write tier: the real writers over loopback TCP (writev path of net.Buffers.WriteTo)
+	extra := map[string]interface{}{}
 	for i := 0; i < 24*mult; i++ {
 		op, cls := runWritev(r)
 		if strings.HasPrefix(op, "fatal") {
 			fmt.Fprintln(os.Stderr, "c07:", op)
 			os.Exit(3)
+		}
+		if op == "" { // no loopback TCP here: the draws were made (same PRNG stream), the tier is skipped
+			extra["writev_tier_skipped"] = cls
+			continue
 		}
 		out.Case(op, "accept", cls, true)
 	}
@@ -552,7 +557,7 @@ func main() {
 			}
 		}
 	}
-	out.Close(nil)
+	out.Close(extra)
 }
 
 // templateFrameLen reads the length of frame `cf` off a trace2 line (pieces are p<id>:<len>:<off>:<n>).
